@@ -1,5 +1,5 @@
 ---------------------------- MODULE MC_Framing ----------------------------
-EXTENDS Framing
+EXTENDS Framing, Json, IOUtils, SequencesExt
 
 DefLeader == [nmap |-> 1, np |-> 22, attlen |-> 16384, nch |-> 2, f1 |-> 325000, f2 |-> 511000, f3 |-> 3072, f4 |-> 728000]
 
@@ -30,5 +30,10 @@ QuickCases ==
   \cup { <<"volume", p>> : p \in VolumeAll }
   \cup { <<"trailer", p>> : p \in TrailerAll }
   \cup { <<"image", p>> : p \in ImageAll }
+IsAdm(c) == Admissible(c)
+Tag(cs) == LET q == SetToSeq(cs) IN [i \in 1..Len(q) |-> [file |-> q[i][1], p |-> q[i][2], adm |-> IsAdm(q[i])]]
 ThoroughCases == QuickCases \cup { <<"leader", p>> : p \in LeaderThorough }
+\* hand the enumerated instances to the conformance harness (spec -> code direction)
+ASSUME "CASES_FILE" \in DOMAIN IOEnv =>
+         JsonSerialize(IOEnv.CASES_FILE, Tag(IF IOEnv.CASES_TIER = "thorough" THEN ThoroughCases ELSE QuickCases))
 =============================================================================
